@@ -305,6 +305,7 @@ func checkAssemblerOrder(c *core.Ctx, pkg, rp string) {
 
 	limitPairing(c, c.Rule(rp+".18", "T", "each page limit is compared with the counter it limits (= R11.11): data behind a gap is forced out only when the limit that was configured is reached"))
 	if pkg == "reassembly" {
+		trimmedPacketStartsAtNextSeq(c, c.Rule(rp+".19", "T", "a packet trimmed against delivered data starts at the connection's nextSeq"))
 		containerSiblings(c, c.Rule(rp+".15", "T", "the two byteContainer implementations agree on consuming a skip from the receiver's own window"))
 		checkCoherentTriples(c, c.Rule(rp+".14", "T", "a connection is returned together with its own two halves"))
 		checkOverlapAlways(c, c.Rule(rp+".13", "T", "the packet being handled is compared with the out-of-order queue on every path (only an empty queue may skip it)"), pkg)
